@@ -39,10 +39,10 @@ theorem vectorSub_zeros (u : List Int) : vectorSub u (List.replicate u.length 0)
     rw [ih]
 
 theorem unitAt_append_zeros (p q r : Nat) : unitAt p q ++ List.replicate r 0 = unitAt p (q + r) := by
-  simp [unitAt, List.replicate_add]
+  simp [unitAt]
 
 theorem zeros_append_unitAt (r p q : Nat) : List.replicate r 0 ++ unitAt p q = unitAt (r + p) q := by
-  simp [unitAt, List.replicate_add]
+  simp only [unitAt, ← List.append_assoc, List.replicate_append_replicate]
 
 theorem unitAt_zero (q : Nat) : unitAt 0 q = 1 :: List.replicate q 0 := by simp [unitAt]
 
@@ -80,7 +80,7 @@ theorem ruv_step_zero (c : Bool) {u : List Int} (hu : IsUnitVec u)
       rw [List.length_replicate] at this
       rw [this]
       refine ⟨⟨0, q + q, ?_⟩, by simp; omega⟩
-      simp [unitAt, List.replicate_add]
+      simp [unitAt]
     | succ p =>
       rw [unitAt_succ]
       simp only [List.length_cons, List.replicate_succ, List.tail_cons, List.take_succ_cons, List.take_zero]
@@ -88,7 +88,7 @@ theorem ruv_step_zero (c : Bool) {u : List Int} (hu : IsUnitVec u)
       refine ⟨⟨1 + (unitAt p q).length + p, q, ?_⟩, by simp [unitAt_length]; omega⟩
       rw [show (0 : Int) :: ([] : List Int) ++ (List.replicate (unitAt p q).length 0 ++ unitAt p q)
           = List.replicate (1 + (unitAt p q).length) 0 ++ unitAt p q by
-        simp [List.replicate_add, List.replicate_succ]]
+        rw [Nat.add_comm 1, List.replicate_succ]; rfl]
       rw [zeros_append_unitAt]
   · -- v = u, so u[0] = 0
     rw [scalarMul_true] at h0 ⊢
